@@ -28,7 +28,7 @@ type Options struct {
 	Ticks bool
 	// quarantined atoms (known findings)
 	KnownForInitShadow  bool // for-init variable that hides a live outer variable
-	KnownBareBlock      bool // bare block declaring a name that hides a live outer variable
+	KnownBareBlock      bool // bare block declaring a name that hides a live outer variable (repaired in /repo: on by default)
 	KnownIncDecNarrow   bool // ++/-- on uint32 / uint8 variables
 	KnownByteConv       bool // byte(x) of a wider integer
 	KnownLoopVarCapture bool // closure capturing a for-loop variable
@@ -37,7 +37,7 @@ type Options struct {
 }
 
 func DefaultOptions() Options {
-	return Options{MaxStmts: 7, MaxDepth: 3, NumFuncs: 6, NumCases: 5, Shadowing: true, Ticks: true}
+	return Options{MaxStmts: 7, MaxDepth: 3, NumFuncs: 6, NumCases: 5, Shadowing: true, Ticks: true, KnownBareBlock: true}
 }
 
 type Ty struct {
@@ -955,8 +955,20 @@ func (g *G) stmt(sc *scope, depth int, tail tailKind, remaining int) {
 		g.commaOkStmt(sc)
 	case r < 97:
 		g.appendSpreadStmt(sc)
-	case r < 99:
+	case r < 98:
 		g.methodCallStmt(sc)
+	case g.opt.KnownBareBlock && depth < g.opt.MaxDepth:
+		// a bare block: a scope of its own, may re-declare outer names
+		g.feat("bare-block")
+		g.line("{")
+		g.ind++
+		inner := &scope{parent: sc}
+		for i := 0; i < 1+g.rng.Intn(3); i++ {
+			g.stmt(inner, depth+1, tailPlain, 0)
+		}
+		g.useAll(inner)
+		g.ind--
+		g.line("}")
 	default:
 		g.declare(sc, depth > 0)
 	}
